@@ -79,12 +79,20 @@ void vh_run_case(Ctx &ctx)
         desc = "seed";
     } else {
         input = seedText(ctx.rng, ctx.seed, base, name);
-        int kind = ctx.rng.range(0, 9);
+        int kind = ctx.rng.range(0, 13);
         if (input.size() > 400000) {
             kind = 9; // huge corpus files: byte-level only on a prefix
             input.resize(65536);
         }
-        if (kind <= 6) {
+        if (kind >= 10) {
+            // legal-but-unexpected XML: comments/PIs/CDATA in text, twin attributes, blown-up values, the library's own
+            // string literals as names, DOCTYPE + entities, units DAGs; sometimes on top of a structural mutation
+            if (kind == 13) {
+                input = mutateStructured(input, ctx.rng, ctx.rng.range(1, 2), desc);
+            }
+            input = mutateHostileXml(input, ctx.rng, ctx.rng.range(1, 2), desc);
+            stat("hostile_xml_inputs");
+        } else if (kind <= 6) {
             input = mutateStructured(input, ctx.rng, ctx.rng.range(1, 4), desc);
         } else if (kind == 7) {
             input = truncateClass(input, ctx.rng.range(0, 4));
